@@ -1,9 +1,11 @@
 (* C05 — metadata fidelity: what the user sets is what a reader gets. Statements only.
    Value level: Props/C04.v (C04_value, C04_attribute: every stored value is read back as dv_of code value).
    API level, proved here: an assignment stores exactly the converter's result in exactly the assigned part.
-   The end-to-end statement "decoded attribute = last accepted assignment" is checked on every run by the harness on
-   implementation output (expected values computed from the operation list, not from dliswriter objects): see DESIGN. *)
-From DV Require Import Model.ApiDispatch Proofs.BuilderP Proofs.EflrP Model.EflrReader.
+   Record level, proved here (C05_record_is_the_set): every explicitly formatted record decodes to exactly the set as it
+   stands when the record is produced — identities, and attribute by attribute ABSATR or count / code / units / values.
+   What remains per run: that the stored state at write time is the last accepted assignment plus the documented
+   defaults (the harness computes the expectation from the operation list, not from dliswriter objects): see DESIGN. *)
+From DV Require Import Model.ApiDispatch Proofs.BuilderP Proofs.EflrP Model.EflrReader Proofs.StructP Proofs.FileP.
 
 Theorem C05_assign_value : forall hc st it idx r it',
   set_value hc st it idx r = OK it' -> (idx < length (i_attrs it))%nat ->
@@ -31,6 +33,27 @@ Theorem C05_value_readback : forall c v b r,
   enc_val (Some c) v = OK b -> exists dv, dv_of c v = Some dv /\ dec_val c (b ++ r) = Some (dv, r).
 Proof. exact enc_val_dec. Qed.
 
+(* the relations used below, printed so that the statement can be read here *)
+Print set_matches.
+Print obj_matches.
+Print attr_matches.
+Print eset_of.
+
+(* In every state satisfying the invariant (hence after any sequence of API calls and writes: reachable_inv_actions),
+   the record produced for a non-empty set decodes, and the decoded set MATCHES the set of the state the encoder leaves
+   (write-time defaults included): same set type and name; template labels = the schema's labels; per object the identity
+   (origin, copy number, name) and, per attribute, ABSATR for an unset value, else the announced count, the representation
+   code, the units and the values dv_of code v of the stored state — references as the identity of the referenced item. *)
+Theorem C05_record_is_the_set : forall st sid st' r,
+  Inv st -> enc_sset st sid = OK (st', r) -> s_items (set_at st sid) <> [] ->
+  exists d, dec_set (lr_body r) = Some d /\ set_matches (eset_of st' sid) d.
+Proof. intros st sid st' r Hi H Hne. exact (enc_sset_faithful st sid st' r H Hi Hne). Qed.
+
+Theorem C05_reachable_states_satisfy_the_invariant : forall l ps, Inv (snd (run_actions ps b_init l)).
+Proof. intros l ps. apply reachable_inv_actions. split; [apply WriteP.inv_shape_init | apply inv_struct_init]. Qed.
+
 Print Assumptions C05_assign_value.
 Print Assumptions C05_assign_units.
 Print Assumptions C05_value_readback.
+Print Assumptions C05_record_is_the_set.
+Print Assumptions C05_reachable_states_satisfy_the_invariant.
